@@ -126,6 +126,10 @@ func (f *File) SectionOf(entry string, boundary map[string]bool) (Section, error
 		l := &f.Lines[i]
 		if l.Kind == KLabel && boundary[l.Label] && l.Label != entry {
 			s.End = i
+			// a directive directly before the label (`.align 2` of a mart) belongs to that item
+			if p := f.PrevCode(i); p > s.Start && f.Lines[p].IsData() {
+				s.End = p
+			}
 			break
 		}
 		if l.Kind == KOther {
